@@ -1,10 +1,10 @@
 #!/bin/bash
 # runs every registered quick check on the current /repo tree; prints one status line per property
-cd /verif
+cd "$(dirname "$0")/.."
 tier=${1:-quick}
-for p in $(python3 -c "import json; print(' '.join(c['property_id'] for c in json.load(open('/verif/MANIFEST.json'))['checks']))"); do
+for p in $(python3 -c "import json; print(' '.join(c['property_id'] for c in json.load(open('MANIFEST.json'))['checks']))"); do
   s=$(date +%s)
-  out=$(python3-vt run_check.py --property $p --tier $tier 2>&1); rc=$?
+  out=$(python3-vt ./run_check.py --property $p --tier $tier 2>&1); rc=$?
   e=$(date +%s)
   echo "$p rc=$rc $((e-s))s  viol=$(echo "$out" | grep -c '^VIOLATION')  known=$(echo "$out" | grep -c '^KNOWN-FINDING')  inconclusive=$(echo "$out" | grep -c 'INCONCLUSIVE')  unconfirmed=$(echo "$out" | grep -c '^UNCONFIRMED')"
   echo "$out" | grep -E "INCONCLUSIVE|^UNCONFIRMED|^VIOLATION" | cut -c1-260
